@@ -1,6 +1,6 @@
 (* C11 property theorems. Nothing but statements closed by `exact lemma`, Print Assumptions, and non-vacuity Examples. *)
 From Coq Require Import ZArith NArith List Bool.
-From OG Require Import C11.Model C11.Proofs C11.ProofsRange C11.ProofsBuilders.
+From OG Require Import C11.Model C11.Proofs C11.ProofsRange C11.ProofsBuilders C11.ProofsSpan.
 Import ListNotations.
 Open Scope Z_scope.
 
@@ -68,6 +68,18 @@ Theorem group_span_partition : forall t t' d, 0 < d ->
   fst (span_of t d) <= t' < fst (span_of t d) + d -> fst (span_of t' d) = fst (span_of t d).
 Proof. exact span_same. Qed.
 Print Assumptions group_span_partition.
+(* ... the created spans are ordered like the timestamps, and two of them with different starts are disjoint - the end
+   clipped at MaxNanoTime + 1 included; equal starts give equal spans *)
+Theorem group_span_monotone : forall t1 t2 d, 0 < d -> t1 <= t2 -> fst (span_of t1 d) <= fst (span_of t2 d).
+Proof. exact span_monotone. Qed.
+Print Assumptions group_span_monotone.
+Theorem group_span_disjoint : forall t1 t2 d, 0 < d -> fst (span_of t1 d) <> fst (span_of t2 d) ->
+  snd (span_of t1 d) <= fst (span_of t2 d) \/ snd (span_of t2 d) <= fst (span_of t1 d).
+Proof. exact span_disjoint. Qed.
+Print Assumptions group_span_disjoint.
+Theorem group_span_start_determines : forall t1 t2 d, fst (span_of t1 d) = fst (span_of t2 d) -> span_of t1 d = span_of t2 d.
+Proof. exact span_start_determines. Qed.
+Print Assumptions group_span_start_determines.
 
 (* Read side, repaired getConditionTags / TargetShards (OR with an unconstrained operand = unconstrained, AND = cross
    product, key buffer reset per alternative): for every hash function, catalogue, condition tree, time range and
